@@ -52,8 +52,14 @@ def _check_one(case: dict):
     names = case.get("names") or list(range(len(lens)))  # members may share a config name (names are free-form labels)
     declared = case.get("declared") or lens  # n_mazes written in a member's config may differ from the mazes it holds (as after a filter / split)
     if route == "generate":
-        names, declared = list(range(len(lens))), lens
-    cfgs = [MazeDatasetConfig(name=f"m{names[j]}", grid_n=grids[j], n_mazes=declared[j], seed=100 + j) for j in range(len(lens))]
+        declared = lens
+        if not case.get("same_cfg"):
+            names = list(range(len(lens)))
+    seeds = [100 + (0 if case.get("same_cfg") else j) for j in range(len(lens))]
+    if case.get("same_cfg"):
+        # member configurations that are equal except for the maze count (the count is excluded from config equality)
+        names, grids = [0] * len(lens), [grids[0]] * len(lens)
+    cfgs = [MazeDatasetConfig(name=f"m{names[j]}", grid_n=grids[j], n_mazes=declared[j], seed=seeds[j]) for j in range(len(lens))]
     ccfg = MazeDatasetCollectionConfig(name="col", maze_dataset_configs=cfgs)
     if route == "generate":
         col = call("C16:generate", MazeDatasetCollection.generate, ccfg)
@@ -175,6 +181,44 @@ def _histories(draw, maxm, maxlen):
     return {"lens": lens, "grids": grids, "ops": [["observe"]] + ops}
 
 
+def check_huge(case: dict):
+    """totals beyond 2^15 / 2^16 mazes built from medium-sized members (running totals must not be held in a narrower type than the
+    total needs); items are probed at member boundaries and at a stride"""
+    from maze_dataset import MazeDataset, MazeDatasetCollection, MazeDatasetCollectionConfig, MazeDatasetConfig
+
+    lens = case["lens"]
+    base = [_maze(2, k) for k in range(4)]
+    cfgs = [MazeDatasetConfig(name=f"h{j}", grid_n=2, n_mazes=lens[j], seed=j) for j in range(len(lens))]
+    members = []
+    for j, ln in enumerate(lens):
+        # distinct objects per member would cost memory for nothing: identity of (member, local index) is checked through the member itself
+        members.append(MazeDataset(cfg=cfgs[j], mazes=[base[(j + k) % 4] for k in range(ln)]))
+    col = call("C16:construct", MazeDatasetCollection, MazeDatasetCollectionConfig(name="huge", maze_dataset_configs=cfgs), members)
+    total = sum(lens)
+    require(call("C16:len", len, col) == total, "C16:len", f"len={len(col)} total={total}")
+    bounds, acc = [], 0
+    for ln in lens:
+        bounds += [acc - 1, acc, acc + 1, acc + ln // 2]
+        acc += ln
+    probes = sorted({i for i in bounds + list(range(0, total, max(1, total // 200))) + [total - 1, 32767, 32768, 65535, 65536] if 0 <= i < total})
+    for i in probes:
+        j, off, acc = 0, i, 0
+        while off >= lens[j]:
+            off -= lens[j]
+            j += 1
+        got = call("C16:getitem", col.__getitem__, i)
+        require(got is members[j].mazes[off], "C16:getitem-wrong-maze", f"member lengths {lens}: item {i} is not maze {off} of member {j}")
+    dl = list(col.dataset_lengths)
+    require(dl == list(lens) and col.cfg.n_mazes == total, "C16:counts-disagree", f"dataset_lengths={dl[:6]} cfg.n_mazes={col.cfg.n_mazes} total={total}")
+    return {"nt": True, "labels": ["huge", f"total>={total // 10000 * 10000}"]}
+
+
+def _huge_cases(shard, nshards):
+    for k, lens in enumerate([[12000, 0, 12000, 9000, 3000], [30000, 2768, 1], [20000, 20000, 20000, 5537], [1, 32766, 1, 1], [40000], [0, 65535, 2]]):
+        if k % nshards == shard:
+            yield {"lens": lens}
+
+
 def _exhaustive(shard, nshards):
     k = 0
     for n in range(1, 5):
@@ -211,6 +255,8 @@ def _random(draw, maxm, maxlen):
     if draw(st.integers(0, 3)) == 0:
         m2 = draw(st.integers(1, 5))
         case["other"] = {"lens": [draw(st.integers(0, 3)) for _ in range(m2)], "grids": [2 + ((j + 1) % 3) for j in range(m2)], "route": "hand"}
+    if draw(st.integers(0, 3)) == 0:
+        case["same_cfg"] = True
     if case["route"] == "hand":
         if draw(st.booleans()):
             case["names"] = [draw(st.integers(0, max(0, n // 2))) for _ in range(n)]
@@ -224,5 +270,6 @@ def subs(tier: str):
     return [
         Sub("exhaustive-012", check, "exhaustive", cases=_exhaustive, exhaustive_flag=True),
         Sub("random", check, "hypothesis", strategy=lambda: _random(7 if q else 12, 4 if q else 8), examples=30 if q else 2000),
+        Sub("totals-beyond-32768", check_huge, "exhaustive", cases=_huge_cases, exhaustive_flag=False),
         Sub("member-edit-histories", check_history, "hypothesis", strategy=lambda: _histories(5 if q else 8, 3 if q else 5), examples=40 if q else 3000),
     ]
